@@ -47,6 +47,7 @@
   comparison of the `world` suite is the backstop.
 -/
 import TypedpyModel.Lemmas.World
+import TypedpyModel.Sem.WorldDecl
 import TypedpyModel.Generated.Registries
 import TypedpyModel.Pinned.Registries
 namespace Typedpy.C15
@@ -510,5 +511,52 @@ theorem C15_statement_fails_today : ¬ C15_statement (configOf Generated.registr
   have h3 := mro_serializer_breaks_frame.2.2.1
   rw [h1, h3] at h2
   cases h2
+
+/-! ### "behaves per its own definition" as a statement about Sem/Validate results -/
+
+/-- for every interpretation of the field tags as `FieldDecl`s, every regex / hook oracle and every CONCRETE
+    keyword arguments, the `Sem/Validate` result of constructing class `c` (stored instance or exception class)
+    after any history outside the excluded region is the result after the sub-history the class depends on:
+    definitions, uses and cache fills of OTHER classes do not change it -/
+theorem construct_result_frame (cfg : Config) (hc : cfg.cachesById = true) (T : ClassId → Bool)
+    (h : List WorldOp) (hx : Excluded cfg h) (hcl : closed T h = true) (c : ClassId) (hT : T c = true)
+    (O : Oracles) (env : DeclEnv) (kw : List (String × PyVal)) :
+    (view cfg (runW cfg World.initial h) c).map (fun b => constructVal O env b kw)
+      = (view cfg (runW cfg World.initial (slice T h)) c).map (fun b => constructVal O env b kw) := by
+  rw [frame cfg hc T h hx hcl c hT]
+
+/-- … and a use of ANY class (other than an explicit serializer configuration) changes no class's
+    `Sem/Validate` construction result -/
+theorem construct_result_unchanged_by_use (cfg : Config) (hc : cfg.cachesById = true) (W : List (String × TypeId))
+    (w : World) (g : Good cfg W w) (op : WorldOp) (huse : plainUse op = true)
+    (hq : quietStep cfg w op = true) (d : ClassId)
+    (hwf : ∀ e, alookup d w.classes = some e → e.core.src.fast = true → refsCreatable e = true)
+    (O : Oracles) (env : DeclEnv) (kw : List (String × PyVal)) :
+    (view cfg (stepW cfg w op).1 d).map (fun b => constructVal O env b kw)
+      = (view cfg w d).map (fun b => constructVal O env b kw) := by
+  rw [use_changes_no_view cfg hc W w g op huse hq d hwf]
+
+
+def exEnv : DeclEnv where
+  prim := fun t => if t == 0 then some (.integer {}) else if t == 1 then some (.string none (some 3) none) else none
+  dflt := fun t => if t == 1 then some (.str "d") else none
+
+/-- non-vacuity: under today's table, after the history `hEx` (same-named classes, two user classes named `User`,
+    uses of every kind) the class `Order`#0 — fields `id: Integer`, `who: Field[User#1]`, `n: String(maxLength=3) = "d"`
+    mapped to "N" — accepts a valid argument set (storing the default), rejects an instance of the OTHER `User`
+    with TypeError, a too long string with ValueError and a missing required argument with TypeError, exactly as
+    after its own definition alone -/
+theorem construct_result_example :
+    ((view (configOf Generated.registries) (runW (configOf Generated.registries) World.initial hEx) 0).map fun b =>
+      [ (constructVal {reMatch := fun _ _ => false} exEnv b [("id", .int 3), ("who", .inst "U#1" [])]).map
+          (fun r => match r with | .ok (.inst _ attrs) => attrs.length | _ => 0),
+        (constructVal {reMatch := fun _ _ => false} exEnv b [("id", .int 3), ("who", .inst "U#2" [])]).map
+          (fun r => match r with | .error .typeErr => 1 | _ => 0),
+        (constructVal {reMatch := fun _ _ => false} exEnv b [("id", .int 3), ("who", .inst "U#1" []), ("n", .str "abcd")]).map
+          (fun r => match r with | .error .valueErr => 1 | _ => 0),
+        (constructVal {reMatch := fun _ _ => false} exEnv b [("who", .inst "U#1" [])]).map
+          (fun r => match r with | .error .typeErr => 1 | _ => 0) ])
+      = some [some 3, some 1, some 1, some 1] := by
+  decide +kernel
 
 end Typedpy.C15
